@@ -61,3 +61,34 @@ def schema_of_self_referencing_dataclass(v):
     (directly, through a collection, mutually, or via Self): unbounded recursion (RecursionError), or TypeError for Self."""
     f = v.get("facts", {})
     return f.get("kind") == "recursive" and f.get("exc") in ("RecursionError", "TypeError")
+
+
+@predicate
+def schema_flag_enum_lists_members_only(v):
+    """F09: the schema of a Flag / IntFlag lists the declared members only; combined values and 0 are rejected."""
+    f = v.get("facts", {})
+    return bool(f.get("has_flag_enum")) and bool(f.get("failed_on_enum_keyword")) and bool(f.get("instance_is_int"))
+
+
+@predicate
+def schema_property_names_typed_as_python_key(v):
+    """F10: propertyNames of a mapping schema is the schema of the Python key type (integer, number, enum of ints, ...)
+    although JSON object keys are always strings."""
+    f = v.get("facts", {})
+    return bool(f.get("failed_in_propertyNames")) and bool(f.get("has_non_string_map_key_type"))
+
+
+@predicate
+def schema_fixed_unpack_item_bounds(v):
+    """F11: Tuple[A, Unpack[Tuple[B, C]], D]: maxItems is not incremented for the items of a fixed-size unpack
+    (maxItems < minItems, unsatisfiable)."""
+    f = v.get("facts", {})
+    return bool(f.get("has_fixed_size_unpack")) and bool(f.get("failed_on_items_count"))
+
+
+@predicate
+def schema_definitions_keyed_by_bare_name(v):
+    """F12: definitions are keyed by the bare class __name__: two distinct classes (or two specialisations of a generic
+    dataclass) with the same name share one definition; the later one wins."""
+    f = v.get("facts", {})
+    return f.get("kind") in ("homonyms", "generic-twice") and f.get("all_refs") is True
